@@ -239,6 +239,7 @@ func seqConfig(run *ev.Run, n, m int, tick time.Duration, maxLen int, syms []int
 		}
 	}
 	r := newRig(n, m, tick)
+	r2 := newRig(n, m, tick) // a second, independent sampler with the same settings in the same process
 	base := int64(1_000_000_000_000)
 	sinceFresh := 0
 	local := map[string]bool{}
@@ -254,16 +255,20 @@ func seqConfig(run *ev.Run, n, m int, tick time.Duration, maxLen int, syms []int
 	var rec func()
 	rec = func() {
 		if len(seq) > 0 {
-			for mode := 0; mode < 2; mode++ {
+			for mode := 0; mode < 3; mode++ {
 				// each sequence starts beyond every open window: a longer legal history
 				base += 4*int64(tick) + 10
 				t := base
 				for i, s := range seq {
 					t += ds[s.dt]
 					useChild := mode == 1 && i%2 == 1
-					if msg := r.step(useChild, ks[s.k], t); msg != "" {
-						fail([]string{"parent", "alternating parent/With-child"}[mode], i, msg)
-						r = newRig(n, m, tick)
+					rr := r
+					if mode == 2 && i%2 == 1 {
+						rr = r2
+					}
+					if msg := rr.step(useChild, ks[s.k], t); msg != "" {
+						fail([]string{"parent", "alternating parent/With-child", "alternating between two independent samplers with the same settings"}[mode], i, msg)
+						r, r2 = newRig(n, m, tick), newRig(n, m, tick)
 						break
 					}
 					steps++
@@ -288,7 +293,7 @@ func seqConfig(run *ev.Run, n, m int, tick time.Duration, maxLen int, syms []int
 			sinceFresh++
 			if sinceFresh >= 10000 {
 				sinceFresh = 0
-				r = newRig(n, m, tick)
+				r, r2 = newRig(n, m, tick), newRig(n, m, tick)
 			}
 		}
 		if len(seq) == maxLen {
@@ -648,7 +653,7 @@ func main() {
 		"traces_validated_against_impl": seqs.Load() + sum.Execs,
 		"evaluations":                   seqs.Load() + sum.Execs,
 		"distinct_nontrivial":           len(states) + len(sum.Outcomes),
-		"rule":                          fmt.Sprintf("sequential: every sequence of length <=%d over 11 keys (incl. a non-ASCII message and a non-ASCII collider of it, and next-level messages in the neighbouring buckets) x 6 timestamp deltas {0,tick-1,tick,tick+1,-1,-(tick+1)} for first,thereafter in 0..3 and tick in {0,1ns,10ns,1s}, on the parent and alternating parent/With-child, real sampler in lockstep with the reference counters; concurrent: every interleaving of 2-3 threads x 1-2 same-key entries inside / straddling a window; distinct = distinct reference counter states / admitted counts", maxLen),
+		"rule":                          fmt.Sprintf("sequential: every sequence of length <=%d over 11 keys (incl. a non-ASCII message and a non-ASCII collider of it, and next-level messages in the neighbouring buckets) x 6 timestamp deltas {0,tick-1,tick,tick+1,-1,-(tick+1)} for first,thereafter in 0..3 and tick in {0,1ns,10ns,1s}, on the parent, alternating parent/With-child, and alternating between two independent samplers of the same settings, real sampler in lockstep with the reference counters; concurrent: every interleaving of 2-3 threads x 1-2 same-key entries inside / straddling a window; distinct = distinct reference counter states / admitted counts", maxLen),
 		"samples": []any{
 			map[string]any{"config": "first=1 thereafter=2 tick=10ns", "sequence": "(info,\"a\",dt=0) (info,\"" + collider + "\",dt=9) (info,\"a\",dt=10)"},
 			map[string]any{"concurrent_item": items[0]},
